@@ -7,6 +7,9 @@ MAX_DEPTH = 7
 # never inlined (formatting / debug helpers are irrelevant to every rule)
 NO_INLINE_PREFIX = ("core::fmt", )
 NO_INLINE_DEFAULT = {"any_value::Unknown::is"}
+# core combinators that do nothing but invoke the closure they are given: the closure body is expanded in place
+# (`cond.then(|| e)` is `if cond { Some(e) } else { None }`, `opt.map(|x| e)` is `match opt { Some(x) => Some(e), None => None }`)
+CLOSURE_COMBINATORS = {"core::bool::<impl bool>::then": "then", "core::option::Option::<T>::map": "map"}
 
 
 class Inst:
@@ -31,7 +34,7 @@ class Inst:
 
 
 class Node:
-    __slots__ = ("gid", "inst", "bb", "data", "cleanup", "succs", "callee_inst", "preds")
+    __slots__ = ("gid", "inst", "bb", "data", "cleanup", "succs", "callee_inst", "preds", "closure_call")
 
     def __init__(self, gid, inst, bb, data):
         self.gid = gid
@@ -42,6 +45,7 @@ class Node:
         self.succs = []      # (gid, kind) kind in normal|unwind
         self.preds = []
         self.callee_inst = None
+        self.closure_call = None
 
     def where(self):
         t = self.data["term"]
@@ -136,6 +140,18 @@ class Graph:
             p = callee["path"]
             if p.startswith(NO_INLINE_PREFIX):
                 continue
+            comb = CLOSURE_COMBINATORS.get(p)
+            if comb and depth + 1 <= self.max_depth:
+                gargs = [self.tcx.subst(a, subst) for a in callee.get("generic_args", [])]
+                cl = [a for a in gargs if a.get("k") == "closure"]
+                cfn = self.fx.fns.get(cl[0]["path"]) if cl else None
+                owner = inst
+                while cfn is not None and owner is not None and not cl[0]["path"].startswith(owner.fn["path"] + "::{closure"):
+                    owner = owner.parent
+                if cfn is not None and owner is not None and cfn["path"] not in chain:
+                    node.callee_inst = self._instantiate(cfn, owner.subst, inst, node.gid, depth + 1, chain + (cfn["path"],))
+                    node.closure_call = comb
+                continue
             r = self.resolve_callee(callee, subst)
             if r is None:
                 if callee.get("trait") and (callee.get("local_crate") or callee["trait"] in self.fx.traits):
@@ -175,6 +191,10 @@ class Graph:
             inst = n.inst
             if k == "call" and n.callee_inst is not None:
                 n.succs.append((n.callee_inst.bmap[0], "normal"))
+                if n.closure_call:
+                    # the combinator may also skip the closure (false / None)
+                    for tg in t.get("targets", []):
+                        n.succs.append((inst.bmap[tg], "normal"))
             elif k in ("goto", "switch", "assert", "drop", "call"):
                 for tg in t.get("targets", []):
                     n.succs.append((inst.bmap[tg], "normal"))
